@@ -3,12 +3,15 @@
    no Extract Constant of ours; N / positive / byte / string stay Coq inductives. *)
 Require Extraction.
 Require Import ExtrOcamlBasic.
-From Jamm Require Import Bytes Fnv Consts CLayout Meta Spec.
+From Jamm Require Import Bytes Fnv Consts CLayout Meta Spec Codec Tree Cursor.
 Extraction Language OCaml.
 Set Extraction KeepSingleton.
 Separate Extraction
-  Bytes.bcmp Bytes.le_enc Bytes.le_dec Bytes.be_enc Bytes.byte_of_N Bytes.slice
+  Bytes.bcmp Bytes.beq Bytes.le_enc Bytes.le_dec Bytes.be_enc Bytes.byte_of_N Bytes.slice
   Fnv.fnv
   Meta.decode_meta Meta.meta_valid Meta.read_slot Meta.select_slots Meta.encode_meta_page Meta.init_meta Meta.with_hash
   Consts.meta_checks_page_type
-  Spec.step Spec.init_sdb Spec.run.
+  Spec.step Spec.init_sdb Spec.run Spec.dump_of Spec.b_next
+  Codec.decode_page Codec.encode_page Codec.body_size
+  Tree.logical Tree.inv_check Tree.open_db Tree.build_tree Tree.flatten Tree.bucket_pages
+  Cursor.scan Cursor.seek_scan Cursor.range_scan Cursor.get Cursor.to_item.
